@@ -213,6 +213,8 @@ func (e failsafeEngine) Check(prop, tier string, c *runner.Case) *runner.Result 
 		}
 		if run.Panic.Budget != nil {
 			res.Violate("non-termination", "non-termination:"+what+":"+run.Panic.Site(), o, run.Panic.Msg)
+		} else if specTypedNil(run.Panic) {
+			res.Violate("panic", "panic:"+what+":spec-typed-nil", o, what+" panicked inside go-openapi/spec: "+run.Panic.Msg+"\n"+run.Panic.Stack)
 		} else {
 			res.Violate("panic", "panic:"+what+":"+run.Panic.Site()+":"+runner.MsgClass(run.Panic.Msg), o, what+" panicked: "+run.Panic.Msg+"\n"+run.Panic.Stack)
 		}
@@ -317,6 +319,8 @@ func (e failsafeEngine) Check(prop, tier string, c *runner.Case) *runner.Result 
 				if pi != nil {
 					if pi.Budget != nil {
 						res.Violate("non-termination", "non-termination:Schema:"+pi.Site(), "", "Schema() at "+sr.Ref.String()+": "+pi.Msg)
+					} else if specTypedNil(pi) {
+						res.Violate("panic", "panic:Schema:spec-typed-nil", "", "Schema() at "+sr.Ref.String()+" panicked inside go-openapi/spec: "+pi.Msg+"\n"+pi.Stack)
 					} else {
 						res.Violate("panic", "panic:Schema:"+pi.Site()+":"+runner.MsgClass(pi.Msg), "", "Schema() at "+sr.Ref.String()+" panicked: "+pi.Msg+"\n"+pi.Stack)
 					}
@@ -334,4 +338,19 @@ func (e failsafeEngine) Check(prop, tier string, c *runner.Case) *runner.Result 
 	_ = jx.Obj{}
 	_ = spec.Swagger{}
 	return res
+}
+
+// specTypedNil recognises the one known way the dependency go-openapi/spec v0.21.0 panics: its resolver marshals a
+// nil pointer wrapped in an interface ("value method ...MarshalJSON called using nil *T pointer"), the panicking
+// frame being in go-openapi/spec itself, whatever function of go-openapi/analysis called the resolver.
+func specTypedNil(pi *runner.PanicInfo) bool {
+	if !strings.Contains(pi.Msg, "value method github.com/go-openapi/spec.") || !strings.Contains(pi.Msg, "called using nil *") {
+		return false
+	}
+	for _, ln := range strings.Split(pi.Stack, "\n") {
+		if strings.HasPrefix(ln, "github.com/go-openapi/") {
+			return strings.HasPrefix(ln, "github.com/go-openapi/spec.")
+		}
+	}
+	return false
 }
